@@ -7,6 +7,10 @@
 //	    beh <id> <what> = <outcome of f> || <outcome of load(string.dump(f))>
 //	    redump <id> = <sha of dump f> <sha of dump(load(dump f))> <sha of second dump f>
 //	malgen <tier>       the damaged dumps: `<kind> x<hex>` per line (crafted | trunc<n> | flip | bytes)
+//	    seq <ops> = <state> | <state after op 1> | …    operation sequences (length <= 4) on ONE live function;
+//	        ops: D dump, S dump strip=true, F strip=false, N strip=nil, C call, E call raising an error, K dump the nested
+//	        closures obtained by calling, L load a stripped dump and call it; state = sha of dump(f), outcomes of the live
+//	        f on two error inputs, outcomes of load(dump(f)) on the same
 //	mal <file> <start>  the damaged dumps of <file> fed to load, one line each, printed BEFORE the call and completed after:
 //	    load <index> <kind> x<hex> = ok|err|panic:<msg>   (run in a child process under RLIMIT_AS: a crash leaves the
 //	    line without " = " and the driver restarts after it)
@@ -606,6 +610,216 @@ func sources(tier string) (ids []string, srcs []string) {
 	return
 }
 
+// ---------------------------------------------------------------- size-parameterised chunk shapes
+
+// siblings: a chunk that defines n sibling closures (none nested in another), calls some and returns two of them
+func siblings(n int) string {
+	var b strings.Builder
+	b.WriteString("local a = ...\nlocal t = {}\n")
+	for i := 1; i <= n; i++ {
+		fmt.Fprintf(&b, "t[%d] = function(x) if x == 'err' then error('sibling %d') end return (x or 0) + %d end\n", i, i, i)
+	}
+	fmt.Fprintf(&b, "return #t, t[1](a), t[%d](a), t[%d](2), t[1], t[%d]\n", n, (n+1)/2, n)
+	return b.String()
+}
+
+// nested: functions nested d deep; the innermost raises an error with its line when asked to
+func nested(d int) string {
+	var b strings.Builder
+	b.WriteString("local a = ...\n")
+	for i := 1; i <= d; i++ {
+		fmt.Fprintf(&b, "%slocal function f%d(x)\n", strings.Repeat(" ", i-1), i)
+	}
+	fmt.Fprintf(&b, "%sif x == 'err' then error('innermost') end\n%sreturn %d, x\n", strings.Repeat(" ", d), strings.Repeat(" ", d), d)
+	for i := d; i >= 1; i-- {
+		ind := strings.Repeat(" ", i-1)
+		fmt.Fprintf(&b, "%send\n", ind)
+		if i > 1 {
+			fmt.Fprintf(&b, "%sreturn f%d(x)\n", ind, i)
+		}
+	}
+	b.WriteString("return f1(a)\n")
+	return b.String()
+}
+
+// wideDeep: d levels, each defining w sibling closures next to the function that holds the next level
+func wideDeep(w, d int) string {
+	var b strings.Builder
+	b.WriteString("local a = ...\nlocal acc = 0\n")
+	for i := 1; i <= d; i++ {
+		ind := strings.Repeat(" ", i-1)
+		for j := 1; j <= w; j++ {
+			fmt.Fprintf(&b, "%slocal function s%d_%d(x) return x + %d end\n", ind, i, j, i*100+j)
+		}
+		fmt.Fprintf(&b, "%slocal function lvl%d(x)\n", ind, i)
+	}
+	fmt.Fprintf(&b, "%sif x == 'err' then error('bottom') end\n%sreturn %d\n", strings.Repeat(" ", d), strings.Repeat(" ", d), d)
+	for i := d; i >= 1; i-- {
+		ind := strings.Repeat(" ", i-1)
+		fmt.Fprintf(&b, "%send\n", ind)
+		if i > 1 {
+			fmt.Fprintf(&b, "%sreturn lvl%d(x) + s%d_1(1) + s%d_%d(2)\n", ind, i, i, i, w)
+		}
+	}
+	fmt.Fprintf(&b, "return lvl1(a) + s1_1(1) + s1_%d(2)\n", w)
+	return b.String()
+}
+
+// longLines: n statements, then blank lines up to line `at`, where an error is raised on request: a long line table
+// with line numbers beyond 16 bits
+func longLines(n, at int) string {
+	var b strings.Builder
+	b.WriteString("local a = ...\nlocal s = 0\n")
+	for i := 0; i < n; i++ {
+		fmt.Fprintf(&b, "s = s + %d\n", i%7)
+	}
+	b.WriteString(strings.Repeat("\n", at-n-3))
+	b.WriteString("if a == 'err' then error('far away') end\nlocal z = nil\nif a == 'idx' then return z.x end\nreturn s\n")
+	return b.String()
+}
+
+// maxNesting: the deepest `nested` shape the compiler accepts (at most limit)
+func maxNesting(e *env, limit int) int {
+	lo, hi := 1, limit
+	for lo < hi {
+		mid := (lo + hi + 1) / 2
+		_, res, _ := hlib.PCall(e.r, e.mk, rt.StringValue(nested(mid)), rt.StringValue("=probe"))
+		if len(res) > 0 && !res[0].IsNil() {
+			lo = mid
+		} else {
+			hi = mid - 1
+		}
+	}
+	return lo
+}
+
+func shapeSources(e *env, tier string) (ids []string, srcs []string) {
+	add := func(id, src string) { ids = append(ids, id); srcs = append(srcs, src) }
+	for _, n := range []int{10, 199, 200, 201, 1000} {
+		add("sib"+strconv.Itoa(n), siblings(n))
+	}
+	top := maxNesting(e, 400)
+	seen := map[int]bool{}
+	for _, d := range []int{10, 50, top / 2, top - 1, top} {
+		if d >= 1 && !seen[d] {
+			seen[d] = true
+			add("nest"+strconv.Itoa(d), nested(d))
+		}
+	}
+	dd := top / 2
+	if dd > 40 {
+		dd = 40
+	}
+	add("wd5x"+strconv.Itoa(dd), wideDeep(5, dd))
+	add("wd40x5", wideDeep(40, 5))
+	add("lines2000at70000", longLines(2000, 70000))
+	add("lines20at100", longLines(20, 100))
+	if tier == "thorough" {
+		add("sib3000", siblings(3000))
+		add("wd12x"+strconv.Itoa(dd), wideDeep(12, dd))
+		add("lines20000at300000", longLines(20000, 300000))
+	}
+	return
+}
+
+// ---------------------------------------------------------------- operation sequences on one live function
+
+const seqSrc = `local x = ...
+local function inner(v)
+  if v == nil then
+    error("missing value")
+  end
+  return v + 1
+end
+local function outer(v)
+  return (inner(v))
+end
+if x == "nested" then return inner, outer end
+return outer(x)`
+
+var seqOps = []string{"D", "S", "F", "N", "C", "E", "K", "L"}
+
+// seqState: what must never change over the life of a function, whatever was done to it before
+func (e *env) seqState(f rt.Value, name string) string {
+	_, d, _ := hlib.PCall(e.r, e.dump, f)
+	ds := "nodump"
+	var lerr string
+	if len(d) == 1 && d[0].Type() == rt.StringType {
+		ds = sha(d[0].AsString())
+		_, g, _ := hlib.PCall(e.r, e.load, d[0], rt.StringValue(name))
+		if len(g) > 0 && !g[0].IsNil() {
+			lerr = outcome(e, g[0], nil) + "/" + outcome(e, g[0], []rt.Value{rt.TableValue(rt.NewTable())})
+		} else {
+			lerr = "noload"
+		}
+	}
+	live := outcome(e, f, nil) + "/" + outcome(e, f, []rt.Value{rt.TableValue(rt.NewTable())})
+	return ds + " " + live + " " + lerr
+}
+
+// doSeq: apply the operations to ONE live function and record the state after each
+func (e *env) doSeq(ops string) {
+	name := "=seq"
+	_, fr, _ := hlib.PCall(e.r, e.mk, rt.StringValue(seqSrc), rt.StringValue(name))
+	if len(fr) == 0 || fr[0].IsNil() {
+		hlib.Emit("seq", ops, "=", "nocompile")
+		return
+	}
+	f := fr[0]
+	states := []string{e.seqState(f, name)}
+	for _, op := range ops {
+		switch op {
+		case 'D':
+			hlib.PCall(e.r, e.dump, f)
+		case 'S':
+			hlib.PCall(e.r, e.dump, f, rt.BoolValue(true))
+		case 'F':
+			hlib.PCall(e.r, e.dump, f, rt.BoolValue(false))
+		case 'N':
+			hlib.PCall(e.r, e.dump, f, rt.NilValue)
+		case 'C':
+			hlib.PCall(e.r, f, rt.IntValue(1))
+		case 'E':
+			hlib.PCall(e.r, f)
+		case 'K': // dump (stripped and plain) the nested closures obtained by calling
+			_, rs, _ := hlib.PCall(e.r, f, rt.StringValue("nested"))
+			for _, v := range rs {
+				if _, ok := v.TryClosure(); ok {
+					hlib.PCall(e.r, e.dump, v, rt.BoolValue(true))
+					hlib.PCall(e.r, e.dump, v)
+				}
+			}
+		case 'L': // load a stripped dump and call it
+			_, d, _ := hlib.PCall(e.r, e.dump, f, rt.BoolValue(true))
+			if len(d) == 1 && d[0].Type() == rt.StringType {
+				_, g, _ := hlib.PCall(e.r, e.load, d[0], rt.StringValue(name))
+				if len(g) > 0 && !g[0].IsNil() {
+					hlib.PCall(e.r, g[0])
+				}
+			}
+		}
+		states = append(states, e.seqState(f, name))
+	}
+	hlib.Emit("seq", ops, "=", strings.Join(states, " | "))
+}
+
+func seqAll(e *env, tier string) {
+	maxLen := 4
+	var rec func(prefix string)
+	rec = func(prefix string) {
+		if prefix != "" {
+			e.doSeq(prefix)
+		}
+		if len(prefix) == maxLen {
+			return
+		}
+		for _, o := range seqOps {
+			rec(prefix + o)
+		}
+	}
+	rec("")
+}
+
 // ---------------------------------------------------------------- damaged dumps
 
 func le64(n uint64) string {
@@ -816,6 +1030,8 @@ func main() {
 	case "gen":
 		e := newEnv()
 		ids, srcs := sources(tier)
+		sids, ssrcs := shapeSources(e, tier)
+		ids, srcs = append(ids, sids...), append(srcs, ssrcs...)
 		var jobs []job
 		for i := range ids {
 			e.collect(ids[i], srcs[i], &jobs) // phase 1: every dump is taken (and kept) before any is verified
@@ -823,6 +1039,9 @@ func main() {
 		for _, j := range jobs {
 			e.verify(j)
 		}
+		seqAll(e, tier)
+	case "seq":
+		newEnv().doSeq(os.Args[2])
 	case "malgen":
 		malgen(tier)
 	case "mal":
@@ -843,6 +1062,8 @@ func main() {
 		latent()
 	case "src":
 		ids, srcs := sources("thorough")
+		sids, ssrcs := shapeSources(newEnv(), "thorough")
+		ids, srcs = append(ids, sids...), append(srcs, ssrcs...)
 		for i := range ids {
 			if ids[i] == os.Args[2] {
 				fmt.Print(srcs[i])
